@@ -230,22 +230,39 @@ func (g *c14Gen) randomblobSite(scope []string) string {
 	s := g.newSite("randomblob")
 	wrap := false
 	switch r := g.pick("nkind", 100); {
-	case r < 50:
+	// The expected blob length (NLen) of the claimed forms is not computed here: the
+	// check asks SQLite itself for length(randomblob(<literal>)).
+	case r < 34:
 		n := g.between(1, 24)
-		s.NKind, s.Args, s.NLen = "int", []string{strconv.Itoa(n)}, n
-	case r < 56:
-		s.NKind, s.Args, s.NLen = "zero", []string{"0"}, 1
-	case r < 66:
-		n := g.between(1, 24)
-		s.NKind, s.Args, s.NLen = "hex", []string{fmt.Sprintf("0x%X", n)}, n
-	case r < 72:
-		n := g.between(1, 9)
-		s.NKind, s.Args, s.NLen = "float", []string{g.oneOf("ff", fmt.Sprintf("%d.5", n), fmt.Sprintf("%d.0", n), fmt.Sprintf("%de0", n))}, n
+		s.NKind, s.Args = "int", []string{strconv.Itoa(n)}
+	case r < 38:
+		s.NKind, s.Args = "zero", []string{g.oneOf("z", "0", "00", "0x0", "0.0")}
+	case r < 46:
+		// leading zeros are decimal in SQLite, never octal
+		s.NKind, s.Args = "leading-zero", []string{g.oneOf("lz", "010", "007", "0012", "08", "020", "0100")}
+	case r < 54:
+		n := g.between(1, 40)
+		s.NKind, s.Args = "hex", []string{fmt.Sprintf(g.oneOf("hx", "0x%X", "0X%X", "0x%x", "0x0%X", "0X00%x"), n)}
+	case r < 62:
+		n := g.between(1, 12)
+		s.NKind, s.Args = "float", []string{g.oneOf("ff", fmt.Sprintf("%d.5", n), fmt.Sprintf("%d.0", n), fmt.Sprintf("%de0", n), fmt.Sprintf("%d.", n),
+			fmt.Sprintf(".%de1", n%10), fmt.Sprintf("%dE1", n%4), fmt.Sprintf("%d.99", n), fmt.Sprintf("%d0e-1", n), fmt.Sprintf("0%d.5", n))}
+	case r < 70:
+		n := g.between(1, 12)
+		s.NKind, s.Args = "string", []string{g.oneOf("sf", fmt.Sprintf("'%d'", n), fmt.Sprintf("'0%d'", n), fmt.Sprintf("' %d'", n), fmt.Sprintf("'%dabc'", n),
+			fmt.Sprintf("'%d.9'", n), fmt.Sprintf("'+%d'", n), "'0x10'", "'abc'", "''", "'-3'", "'1e1'")}
+	case r < 74:
+		s.NKind, s.Args = "null", []string{g.oneOf("null", "NULL", "null")}
 	case r < 77:
-		n := g.between(1, 9)
-		s.NKind, s.Args, s.NLen = "string", []string{fmt.Sprintf("'%d'", n)}, n
-	case r < 80:
-		s.NKind, s.Args, s.NLen = "null", []string{g.oneOf("null", "NULL", "null")}, 1
+		s.NKind, s.Args = "bool", []string{g.oneOf("bl", "TRUE", "false", "true")}
+	case r < 79:
+		s.NKind, s.Args = "blob", []string{g.oneOf("bb", "x'3130'", "X'37'", "x''")}
+	case r < 82:
+		s.NKind, s.Args = "large", []string{g.oneOf("lg", "300", "1000", "4096", "0x200")}
+	case r < 84:
+		// more than SQLite's maximum blob length: the statement fails on every node, nothing is claimed
+		s.NKind, s.Args = "too-big", []string{g.oneOf("tb", "1000000001", "2000000000", "0x7fffffffffffffff", "99999999999999999999", "1e10")}
+		wrap = true
 	case r < 87:
 		s.NKind, s.Args = "signed", []string{g.oneOf("sg", "-1", "+2", "- 3")}
 		wrap = true
